@@ -7,7 +7,9 @@
    Observation of the implementation:  T [L status; T baseline; T screen; file; listing]
      baseline : uids in the order of `adlt convert -s <same file arguments>` (the unfiltered, numbered input)
      screen   : T [L index; L uid] per stdout message line
-     file     : T [] (no -o file) | T [T uids] (re-read)
+     file     : T [] (no file at the -o path after the run) | T [T uids] (its WHOLE final content, re-read);
+                the input also says what the path re-read to BEFORE the run (absent / empty / junk / another DLT
+                file / output of earlier runs): the model's [path_after] must give the final content
      listing  : T [] | T [T [T [L id; L ecu; L nr_msgs] ...]] sorted by id (printed when no style is given)
    [agree_C14]: the baseline is a run of the merge model on the model's streams (acceptor of C09; exact equality
    when there is one stream), and pushing it through lifecycle detection, filter, output stage of the model gives
@@ -19,7 +21,7 @@ Open Scope N_scope.
 
 Definition raw_msg := (N * N * N * N * bool * bool * list bool)%type.
 Definition raw_file := (N * N * list raw_msg)%type.
-Definition raw_opts := (N * N * list N * list (N * bool) * bool * N * bool)%type.
+Definition raw_opts := (N * N * list N * list (N * bool) * bool * N * bool * option (list N))%type.
 Definition case_C14 := (list raw_file * list (option N) * raw_opts)%type.
 
 Definition mk_cmsg (t : raw_msg) : cmsg :=
@@ -37,7 +39,10 @@ Fixpoint mk_filters (k : N) (l : list (N * bool)) : list flt :=
   | (kd, en) :: r => mkFlt (mk_kind kd) en k :: mk_filters (k + 1) r
   end.
 Definition mk_opts (t : raw_opts) : opts :=
-  let '(b, e, lcs, fs, srt, style, ofile) := t in mko b e lcs (mk_filters 0 fs) srt style ofile.
+  let '(b, e, lcs, fs, srt, style, ofile, _) := t in mko b e lcs (mk_filters 0 fs) srt style ofile.
+(* what the -o path re-read to before the run (None: no such file); frames are named by their uid *)
+Definition mk_prior (t : raw_opts) : option (list N) := snd t.
+Definition frame_of (x : cmsg) : list N := [c_uid x].
 
 (* ---- equality of messages *)
 Definition msg_eqb (a b : msg) : bool :=
@@ -116,11 +121,13 @@ Fixpoint ins_row (x : N * lcy) (l : list (N * lcy)) : list (N * lcy) :=
 Definition table_rows (t : table) : list otree :=
   map (fun kv => T [L (fst kv); L (l_ecu (snd kv)); L (l_nr (snd kv))]) (fold_right ins_row [] t).
 
-Definition o_outcome (style : N) (baseline : list cmsg) (r : outcome) : otree :=
+Definition o_outcome (style : N) (prior : option (list N)) (baseline : list cmsg) (r : outcome) : otree :=
   T [L 0; T (map (fun x => L (c_uid x)) baseline);
      T (map (fun p => T [L (fst p); L (snd p)]) (screen_pairs r));
-     match r_file r with None => T [] | Some l => T [T (map (fun x => L (c_uid x)) l)] end;
+     match path_after frame_of prior (Some r) with None => T [] | Some l => T [T (map L l)] end;
      if style =? 0 then T [T (table_rows (r_table r))] else T []].
+
+Definition o_path (p : option (list N)) : otree := match p with None => T [] | Some l => T [T (map L l)] end.
 
 (* is the observed baseline a run of the merge? *)
 Definition merged_ok (its : list (list cmsg)) (base : list N) : option (list cmsg) :=
@@ -140,7 +147,9 @@ Definition agree_C14 (c : case_C14) (o : otree) : bool :=
   match o with
   | T [L status; T base; T screen; fileo; listo] =>
       match files_ok args with
-      | [] => otree_eqb o (T [L 1; T []; T []; T []; T []])
+      | [] =>
+          (* the run fails before the output thread exists: the -o path keeps its state *)
+          otree_eqb o (T [L 1; T []; T []; o_path (path_after frame_of (mk_prior ropts) None); T []])
       | _ =>
           match all_its (streams_of args), nums_of base, pairs_of screen with
           | Ok its, Some base_uids, Some scr =>
@@ -149,13 +158,14 @@ Definition agree_C14 (c : case_C14) (o : otree) : bool :=
                   let r := t4 op merged (filter_stage (o_filters op) (lc_stage merged)) in
                   (status =? 0) &&
                   (if o_sort op then pairs_eqb (sort_pairs scr) (screen_pairs r) else pairs_eqb scr (screen_pairs r)) &&
-                  (match r_file r, fileo with
+                  (* the WHOLE final content of the -o path, whatever it held before *)
+                  (match path_after frame_of (mk_prior ropts) (Some r), fileo with
                    | None, T [] => true
                    | Some l, T [T us] =>
                        match nums_of us with
                        | Some uids =>
-                           if o_sort op then nums_eqb (sort_nums uids) (sort_nums (map c_uid l))
-                           else nums_eqb uids (map c_uid l)
+                           if o_sort op then nums_eqb (sort_nums uids) (sort_nums l)
+                           else nums_eqb uids l
                        | None => false
                        end
                    | _, _ => false
@@ -175,7 +185,7 @@ Definition run_C14 (c : case_C14) : otree :=
   let args := mk_args (map mk_file rfiles) rargs in
   let op := mk_opts ropts in
   match convert_first args op, merged_first args with
-  | Ok None, _ => T [L 1; T []; T []; T []; T []]
-  | Ok (Some r), Ok merged => o_outcome (o_style op) merged r
+  | Ok None, _ => T [L 1; T []; T []; match path_after frame_of (mk_prior ropts) None with None => T [] | Some l => T [T (map L l)] end; T []]
+  | Ok (Some r), Ok merged => o_outcome (o_style op) (mk_prior ropts) merged r
   | _, _ => T [L 2]
   end.
